@@ -28,6 +28,7 @@ PLAN = {
         level="proof",
         verus=["C01_conv_backward.rs", "C01_deconv_backward.rs", "C01_maxpool_backward.rs", "C07_activations.rs", "C16_skip_backward.rs", "C02_dense.rs", "C01_feedback_backward.rs"],
         kani=True,
+        native_checks=[("network.gradient", "bounded native grid: backward() against exact step-1 difference quotients on 5 architectures mixing dense / convolution / deconvolution and flat<->spatial transitions (integer data, linear activations)")],
         undecided_clauses=[
             "Dense::backward is proved to be the delta rule over abstract tensor operations (unit dense.backward: delta = f'(out) (.) g * scale, ones for soft-max; "
             "W^T delta; delta (x) input; bias gradient = delta), the operations themselves are C15's; numerically it is a bounded Kani harness (2->2 / 1->2, small-integer data)",
@@ -52,6 +53,7 @@ PLAN = {
         level="proof",
         verus=["C04_learn_epoch.rs"],
         kani=True,
+        native_checks=[("learn.schedule", "bounded native grid: learn() against the statement executed literally (ordered groups, one step per group with step number = epoch, loss = mean of group means), 180 (N, B, E, optimizer) instances")],
         undecided_clauses=[
             "the forward pass, objective, backward pass and parameter update are abstract functions of the network state in the epoch unit (what they "
             "compute is C02 / C06 / C01 / C03); that Network::update applies exactly one optimizer step per parameter tensor is read (dispatch over layer kinds), "
@@ -88,6 +90,7 @@ PLAN = {
         level="proof",
         verus=["C06_objectives.rs"],
         kani=True,
+        native_checks=[("objective.derivative", "bounded native grid: for AE / MSE / BCE / KL the reported gradient against central difference quotients of the reported loss, both ranks")],
         undecided_clauses=["loss folds over more than 3 elements (bounded structural harness); AE/MSE finiteness is stated for |a|,|p| <= 1e18 "
                            "(larger finite inputs overflow the exact result)"],
     ),
@@ -117,6 +120,7 @@ PLAN = {
         level="proof",
         verus=["C10_feedback.rs"],
         kani=True,
+        native_checks=[("feedback.tied", "bounded native grid: repetitions bit-identical at creation and after training, parameters() counts once; 192 block networks")],
         undecided_clauses=[
             "copies are equal at creation: follows from `layers.extend(_layers.clone())` (derived Clone), read not verified",
             "the accumulation arms (add/subtract/multiply/mean over the members) and the per-copy optimizer steps of Feedback::update are NOT "
@@ -129,6 +133,7 @@ PLAN = {
         level="proof",
         verus=["C11_skip_table.rs", "C11_forward.rs"],
         kani=True,
+        native_checks=[("feedback.forward", "bounded native grid: Feedback::forward against the L-fold repeated, skip-combined layer sequence; 480 blocks")],
         undecided_clauses=[
             "tensors, shapes and each layer's forward pass are abstract in the forward unit (what a layer computes is C02; that the "
             "repetitions hold equal layers is C10; the element-wise meaning of add/sub/mul/mean is C15)",
@@ -140,6 +145,7 @@ PLAN = {
         level="proof",
         verus=["C12_validate.rs", "C17_network_forward.rs"],
         kani=True,
+        native_checks=[("validate.mean", "bounded native grid: validate() / predict_batch() against the statement on 1..129 samples (across the chunk size), soft-max and linear heads")],
         undecided_clauses=["the iterator pipelines (`par_chunks(..).zip(..).flat_map(|..| ..iter().zip(..).map(..).collect()).collect()`, `unzip`, `zip().map().sum()`) are "
                            "rewritten mechanically to index loops (R31-R35): that rayon's / std's adapters visit the elements in that order is assumed; the bounded Kani "
                            "slices execute the real adapters (std in the mirror) on 2-3 samples across a chunk boundary",
@@ -162,6 +168,7 @@ PLAN = {
         level="proof",
         verus=["C14_reshape.rs"],
         kani=True,
+        native_checks=[("reshape.rowmajor", "bounded native grid: flatten / get_flat / get_triple / reshape on all shapes up to 3x3x4 -> 3x4x4, incl. refusal of a different element count")],
         undecided_clauses=["inputs are assumed well formed (recorded shape = shape of the rectangular data, spatial extents >= 1, element count below 2^62) and the requested "
                            "element count must fit the machine word; empty tensors are not claimed",
                            "the iterator forms of get_flat (`flat_map` chain), get_triple / reshape (stateful `iter.next()` inside nested range maps) and flatten (`extend`) are "
@@ -181,6 +188,7 @@ PLAN = {
         level="proof",
         verus=["C16_connect.rs", "C17_network_forward.rs", "C16_skip_backward.rs"],
         kani=True,
+        native_checks=[("skip.gradient", "bounded native grid: gradients of networks with up to two additive skip connections against exact difference quotients; 144 instances")],
         undecided_clauses=["the gradient clause: the reverse step of Network::backward is proved to differentiate every layer at the input it processed "
                            "and to sum the gradients of all outgoing additive connections (unit network.backward.walk); that this sum IS the derivative is "
                            "the multivariate chain rule (F3, trusted) and each layer's own backward is C01's; non-additive accumulations are not handled by the code (TODO there) nor claimed",
@@ -193,6 +201,7 @@ PLAN = {
         level="proof",
         verus=["C17_network_forward.rs", "C16_connect.rs"],
         kani=False,
+        native_checks=[("loopback.forward", "bounded native grid: predict() of networks with a loop connection against the accumulated repeated sub-network; 1800 instances")],
         undecided_clauses=[
             "tensors, shapes and each layer's forward pass are abstract (what a layer computes is C02, the element-wise meaning of "
             "add/sub/mul/mean is C15, reshape is C14)",
